@@ -3,7 +3,7 @@
 \* a1 activates through node n1, a2 through node n2, each node's SetNX reaches its own local cache.
 \* EXPECTED RESULT: TLC reports "Invariant AtMostOneSuccess is violated" (both nodes win their own claim).
 \* With ClaimLocal = FALSE (claim in the shared tier) the same configuration has no error.
-\*   tlc -workers 8 -config ConnCode_localclaim.cfg ConnCode.tla
+\*   tlc -workers 8 -config ConnCode_show_localclaim.cfg ConnCode.tla
 CONSTANTS
   Acts = {"a1", "a2"}
   HasRev = FALSE
@@ -18,6 +18,8 @@ CONSTANTS
   SameAs = {}
   Reclaim = FALSE
   ResetOnFail = FALSE
+  ResetCreate = FALSE
+  RelScope = "fail"
   CanTick = FALSE
   ShortClaim = FALSE
   Emit = FALSE
